@@ -10,6 +10,12 @@ Inductive rw := AR | AW.
 Definition heldset := list (string * string * mode).   (* lock field, object expression, mode *)
 Record lock_fact := mk_lf { lf_fn : string; lf_field : string; lf_rw : rw; lf_base : string; lf_held : heldset }.
 
+(* interprocedural lockset: an unexported function that the translator analysed as entered
+   with the locks hf_entry held (names in the function's own receiver/parameter names), and
+   the lockset held at each of its static call sites in the package (caller, locks in the
+   callee's names). lf_held of an access inside such a function = hf_entry ++ locks taken locally. *)
+Record helper_fact := mk_hf { hf_fn : string; hf_entry : heldset; hf_sites : list (string * heldset) }.
+
 (* critical sections: how often a function acquires a lock and whether it writes state guarded by it *)
 Record cs_fact := mk_cs { cs_fn : string; cs_lock : string; cs_regions : nat; cs_writes : bool }.
 
@@ -20,6 +26,12 @@ Record var_fact := mk_vf { vf_fn : string; vf_var : string; vf_rw : rw; vf_kind 
 Record counter_prog := mk_cp { cp_fn : string; cp_var : string; cp_ops : list cop }.
 (* in-place mutation of a slice owned by a SecurityConfig (shared by shallow copies) *)
 Record slice_mut := mk_sm { sm_fn : string; sm_what : string; sm_base : string }.
+
+(* an in-place write (element / sub-slice assignment, clear, copy destination, read-into) to a
+   byte slice that is rooted in a struct field or may alias the key bytes of a cached
+   SessionEntry (KeyInfo.Data), which every resuming connection reads without a lock *)
+Record key_write := mk_kw { kw_fn : string; kw_what : string; kw_target : string; kw_aliases_cached_key : bool }.
+Definition cached_key_writers (ws : list key_write) : list key_write := filter kw_aliases_cached_key ws.
 
 Inductive cfgk := CfgCopy | CfgFresh | CfgShared.
 Record auth_site := mk_as { as_fn : string; as_arg : string; as_kind : cfgk }.
@@ -81,6 +93,20 @@ Definition access_ok (x : lock_fact) : bool :=
   | Some (GOwnerRead l owners) =>
       holds (lf_held x) l (lf_base x) (lf_rw x) ||
       match lf_rw x with AR => existsb (String.eqb (lf_fn x)) owners | AW => false end
+  end.
+
+(* the claimed entry lockset of a helper is contained in the lockset of EVERY recorded call
+   site (same lock, same object, at least the claimed mode); a non-empty claim needs a call site *)
+Definition mode_covers (need have : mode) : bool :=
+  match need, have with MW, MR => false | _, _ => true end.
+Definition held_has (h : heldset) (l : string * string * mode) : bool :=
+  let '(n, b, m) := l in
+  existsb (fun p => let '(n', b', m') := p in String.eqb n' n && String.eqb b' b && mode_covers m m') h.
+Definition helper_ok (h : helper_fact) : bool :=
+  match hf_entry h with
+  | [] => true
+  | _ => match hf_sites h with [] => false | _ => true end &&
+         forallb (fun site => forallb (held_has (snd site)) (hf_entry h)) (hf_sites h)
   end.
 
 Definition unguarded (fs : list lock_fact) : list lock_fact := filter (fun x => negb (access_ok x)) fs.
